@@ -14,7 +14,8 @@ CHECKS = [
   "text": "Protocol layer: generated and mutated byte strings in 1-5 chunks against a response-wellformedness / status oracle (tens of thousands "
           "of inputs per quick run, millions of libFuzzer executions in the thorough run, seeded and empty corpus). Socket layer: a real "
           "Worker with the health server on a loopback port; histories of probes, malformed sends, early-opened connections, concurrent "
-          "bursts, a consumer failure, jobs and probes during a slow graceful shutdown; oracle 200/503/404 as of the moment the request is "
+          "bursts, bursts of 130-300 connections that send nothing, a consumer failure (in-memory, or a RabbitMQ server-side cancel "
+          "whose restart is refused), a worker without actors, jobs and probes during a slow graceful shutdown; oracle 200/503/404 as of the moment the request is "
           "sent, port open exactly while run() runs, jobs undisturbed.",
   "note": "Trusted base: Hypothesis, atheris 3.1 (bytecode instrumentation of the protocol methods), the oracle in harness/checks/c20.py. Socket "
           "layer uses real time and loopback sockets; client-side timeouts are counted inconclusive."},
@@ -26,13 +27,15 @@ CHECKS = [
           "loop-step indices on a deterministic loop, so a failing interleaving replays exactly. Statistical over histories; the thorough "
           "tier additionally enumerates every cancellation step of every terminal call over a pool of pre-states (cancel-* sub-checks; sampled in "
           "quick). 'launch'/'collect' rounds keep several consume calls of different clients in flight at once under unequal simulated "
-          "latencies; consumers are paused and resumed in between.",
+          "latencies; consumers are paused and resumed in between. long-lived-*: a consumer works through 60-1040 messages beside a "
+          "message it once took and returned and that another consumer of the same process now holds, then finishes.",
   "note": _MODEL + _SRV + " One open known finding (D9: RabbitMQ requeue is ack+publish, not atomic) is excluded by signature."},
  {"property_id": "C02", "level": "exploration", "design_ref": "DESIGN.md §4 C02",
   "technique": "scenario property-based testing (Hypothesis) with scripted actors against a decision-table reference model, 3 brokers",
   "text": _WORKER + " Oracle = exact expected sequence of terminal broker calls per delivery (op, retry counter), body execution counts, "
           "never-after-eager marker, final place, worker survival. Outcomes include exceptions whose __str__ raises, return values that cannot "
-          "be serialised, and a worker connection without a results bucket broker.",
+          "be serialised, and a worker connection without a results bucket broker, and eager responses given by a dependency. sync-burst: 33-70 sync "
+          "actors started at once meet at a barrier (each delivery is judged on its own however many threads are busy).",
   "note": _MODEL + _SRV},
  {"property_id": "C03", "level": "fault_enumeration", "design_ref": "DESIGN.md §4 C03",
   "technique": "step-indexed fault injection on a deterministic event loop (stop signal / process death at loop step k; Hypothesis-drawn k in quick, every k enumerated in thorough) with a replay-of-completed-calls oracle, 3 brokers",
@@ -70,7 +73,8 @@ CHECKS = [
   "text": "decode(encode(x))==x over generated field combinations at the documented limits (100-year durations at microsecond precision, "
           "tz-aware timestamps); Redis/AMQP name encodings round-trip and are injective over near-miss key pairs; end to end the consumed "
           "key/priority/payload/parameters equal what Job.enqueue() returned and the configured settings, and the actor's arguments equal an "
-          "independent JSON normalisation (inline and bucket transport).",
+          "independent JSON normalisation (inline and bucket transport); a requeue with a new payload, a second job re-using the args_id "
+          "over another connection, and a worker that is already consuming while the producer's bucket store is slow.",
   "note": _MODEL + _SRV},
  {"property_id": "C08", "level": "exploration", "design_ref": "DESIGN.md §4 C08",
   "technique": "property-based testing over generated actor signatures (exec-ed source, real CPython binding) and payloads against an independent binder; converter differential; output round trip",
@@ -96,7 +100,8 @@ CHECKS = [
   "text": "Generated ttl/age/kind (immediate, delayed before/after expiry, retried, rescheduled, no ttl) with the consume (or worker start) "
           "instant placed at expiry+eps; oracle: after expiry never handed over / executed, dead-lettered and retrievable from the DEAD category "
           "with identical content; before expiry delivered and never dead-lettered; cases inside the latency slack band counted unconstrained; "
-          "a broker spinning on an expiring message (step watchdog) is reported; 1-4 adjacent copies of the expiring message; time-to-live values from seconds to 400 days (scheduled long ago).",
+          "a broker spinning on an expiring message (step watchdog) is reported; 1-4 adjacent copies of the expiring message; time-to-live values from seconds to 400 days (scheduled long ago). idle-*: the consumer has been polling an empty queue for "
+          "0.05-3.5 s when a message arrives that expired 1 ms - 1.5 s earlier (or is clearly alive).",
   "note": _MODEL + _SRV},
  {"property_id": "C13", "level": "exploration", "design_ref": "DESIGN.md §4 C13",
   "technique": "scenario property-based testing of stored results against the model's latest-execution outcome, plus fault-injection differential on store_bucket",
@@ -113,7 +118,8 @@ CHECKS = [
   "text": "Interleavings of several consumers/clients are permuted by generated per-round-trip latencies on a deterministic loop; the holder "
           "map is maintained from hand-over/return events and every history ends by draining all consumers. Worker level: 2-3 workers on one "
           "queue, each succeeding job executed exactly once. bulk-*: 100-300 (mostly delayed, distinct due times) messages drained by 2-3 "
-          "concurrent consumers, each handed out exactly once. Statistical over histories and latency vectors.",
+          "concurrent consumers, each handed out exactly once. Half of the Redis / RabbitMQ histories end with every client dying and "
+          "a new one draining the queue: nothing acknowledged comes back. Statistical over histories and latency vectors.",
   "note": _MODEL + _SRV + " Open known finding D24 (Redis maintenance reclaims messages of live consumers after the execution timeout) is excluded by signature."},
  {"property_id": "C15", "level": "exploration", "design_ref": "DESIGN.md §4 C15",
   "technique": "model-based property-based testing of delivery order (single consumer, single priority) with drain / continuous-backlog / reject-and-reawait histories, 3 brokers",
@@ -128,7 +134,7 @@ CHECKS = [
   "text": "Per handle a small state model (usable / refused by category / refused by budget / consumed) predicts for every generated call whether "
           "it raises and which single broker call it may cause (observed at the connection boundary); actor programmes check callback order, "
           "position and value of the lazily placed result store, and that nothing runs after the eager response. dependency-eager: the eager response is given by a dependency of the actor - one "
-          "terminal action, body never entered, nothing reported on top.",
+          "terminal action, body never entered, nothing reported on top; a second action attempted in a finally block is refused.",
   "note": _MODEL + _SRV},
  {"property_id": "C17", "level": "exploration", "design_ref": "DESIGN.md §4 C17",
   "technique": "differential property-based testing: the same lifecycle script with and without generated subscriber sets (signatures, sync/async, raising), signal-log oracle, two connections",
@@ -138,7 +144,8 @@ CHECKS = [
           "equal the subscriber-free run. The script's actor enqueues a sentinel job from inside its body (nested operation inside actor_run). A "
           "signal-completeness probe instruments the functions under the middleware wrapper and decides nesting by dynamic extent over a "
           "task-parent map: every top-level execution of a wrapped operation - by the script, the worker or a consumer's background task - "
-          "was announced; redis-background repeats that with one failing Redis round trip.",
+          "was announced; redis-background repeats that with one failing Redis round trip; slow-sync-subscribers runs bursts of 60-80 "
+          "messages with a slow sync subscriber and sync actors: results equal the subscriber-free run.",
   "note": _MODEL + _SRV},
  {"property_id": "C18", "level": "exploration", "design_ref": "DESIGN.md §4 C18",
   "technique": "property-based testing over generated dependency DAGs (exec-ed providers) against a recursive reference evaluator, with override sequences, failing providers and invalid declarations",
@@ -146,13 +153,13 @@ CHECKS = [
           "evaluator over the current graph gives the expected value of every dependency parameter; overrides are applied between jobs; provider "
           "failure must follow the retry ladder without running the body; unsupported declarations must raise at declaration time. Several "
           "messages are resolved concurrently through shared Depends objects whose providers suspend; alias nodes are separate Depends "
-          "objects over one provider function, overridable on their own.",
+          "objects over one provider function, overridable on their own; providers may return exception objects.",
   "note": _MODEL + " In-memory broker only (dependency resolution is broker-independent)."},
  {"property_id": "C19", "level": "exploration", "design_ref": "DESIGN.md §4 C19",
   "technique": "property-based testing (Hypothesis) of pure functions against arithmetic oracles under a pinned clock",
   "text": "Generated search (tens of thousands of inputs per run, boundary classes constructed on purpose: exact period multiples ±1µs, "
           "now==expiry ±1µs, n above max_exponent, clipped results) against explicit arithmetic oracles. Cannot prove absence; the "
           "functions are small and pure, so boundary-directed generation is the right cost/assurance point. store-redis: buckets written through the Redis bucket broker (fresh, old timestamp, "
-          "re-stored) and read around timestamp+ttl on the server model.",
+          "re-stored) and read around timestamp+ttl on the server model; next: the message may carry an off-grid next_execution_time.",
   "note": _MODEL + " max_exponent ≤ 10^4 by generator bound; cron not exercised (croniter absent)."},
 ]
